@@ -151,6 +151,27 @@ func (b *Broker) Serve(l *Link) *Inc {
 		defer b.wg.Done()
 		inc.loop()
 	}()
+	if l.Unrel != nil {
+		// the datagram side of the connection: what the client sends there is logged in the same ledger (and handled by
+		// default - unreliable-QoS chunks are acknowledged over the reliable side), hooks are not consulted
+		b.wg.Add(1)
+		go func() {
+			defer b.wg.Done()
+			for {
+				raw, ok := l.Unrel.Recv()
+				if !ok {
+					return
+				}
+				_, m, err := inc.enc.DecodeFrom(bytes.NewReader(raw))
+				if err != nil {
+					continue
+				}
+				e := b.log(inc, true, m)
+				b.annotate(inc, e)
+				b.handle(inc, e)
+			}
+		}()
+	}
 	return inc
 }
 
